@@ -102,7 +102,7 @@ def inlined(facts, body, depth=MAX_DEPTH, skip=None, tag=None, sugar=False):
     sg = None
     if sugar:
         from .desugar import Sugar
-        sg = Sugar(facts, locals_, blocks, origin, work)
+        sg = Sugar(facts, locals_, blocks, origin, work, outer=body)
     while work:
         bi, dep, stack = work.pop()
         if len(blocks) > MAX_BLOCKS:
